@@ -69,6 +69,7 @@ def run(tier, seed, rep):
                           dict(definition=d, event=ev, tlc=text, files={"def.rs": files.get(d["id"], "") if d else ""}))
         name, res, consts = mc.result()
         rep.add_model(name, res, consts)
+    evs = [e for e in evs if e.get("op") != "panic"]      # PANIC_FILTER: statistics only (panic events were judged by TLC above)
     nm = [e for e in evs if e["op"] == "names"]
     rep.cov["programs"] = len(ok_ids)
     rep.cov["evaluations"] = sum(len(e["outs"]) for e in nm) + sum(len(e["names"]) for e in evs if e["op"] == "vnames")
